@@ -22,10 +22,7 @@ OUTCOME = {None: 0, "IndexError": 1, "ValueError": 2, "KeyError": 3, "TypeError"
 
 def load_manifest():
     with open(MANIFEST) as fh:
-        m = json.load(fh)
-    if any(f["ret"].get("k") == "builder" for f in m["functions"]):
-        _record_commands("cnfgen.graphs", "DirectedGraph", "add_edge")
-    return m
+        return json.load(fh)
 
 
 # ------------------------------------------------------------------ canonical values (same text as the driver)
@@ -101,7 +98,12 @@ def _digraph_view(D):
     return D.number_of_vertices(), list(D.__dict__.get("_py2lean_log", []))
 
 
-BUILDER_VIEW = {"DirectedGraph": _digraph_view}
+def _bipartite_view(B):
+    return (B.left_order(), B.right_order()), list(B.__dict__.get("_py2lean_log", []))
+
+
+BUILDER_VIEW = {"DirectedGraph": _digraph_view, "BipartiteGraph": _bipartite_view}
+BUILDER_HOME = {"DirectedGraph": ("cnfgen.graphs", "add_edge"), "BipartiteGraph": ("cnfgen.graphs", "add_edge")}
 
 
 # ------------------------------------------------------------------ encodings (tools/py2lean_driver.py)
@@ -440,6 +442,9 @@ def word_lit(rng, ctx):
 
 
 HINTS = {
+    ("bipartite_shift", "N"): lambda rng, ctx: rng.choice([0, 1, 2, 3, 5, -1]),
+    ("bipartite_shift", "M"): lambda rng, ctx: rng.choice([0, 1, 2, 3, 4, 7, -2]),
+    ("bipartite_shift", "pattern"): lambda rng, ctx: [rng.randint(-9, 12) for _ in range(rng.choice([0, 1, 2, 3, 4]))],
     ("dag_path", "length"): lambda rng, ctx: rng.choice([0, 1, 2, 3, 7, 20, -1, -5]),
     ("dag_complete_binary_tree", "height"): lambda rng, ctx: rng.choice([0, 1, 2, 3, 4, 6, -1]),
     ("dag_pyramid", "height"): lambda rng, ctx: rng.choice([0, 1, 2, 3, 4, 7, -1]),
@@ -706,6 +711,10 @@ def make_call(rng, fn, manifest):
     """returns (request builder → str, impl → canonical answer) for one random argument tuple"""
     cls = fn["cls"]
     mod = real_module(fn["source"])
+    if fn["ret"].get("k") == "builder":
+        # only in processes that test such a function: remember the commands its result received
+        home = BUILDER_HOME[fn["ret"]["cls"]]
+        _record_commands(home[0], fn["ret"]["cls"], home[1])
     pieces = []          # (type, value) in request order; outcome entries are filled after the real run
     probes = {}          # erased parameter name -> ProbeStr or None
 
